@@ -57,4 +57,15 @@ theorem runReqs_repaired (cs : Classes) (fuel : Nat) (k : Cache) (hk : Good cs k
     obtain ⟨h1, h2⟩ := getRepaired_spec cs fuel k c hk
     rw [h1, ih _ h2]
 
+
+theorem makeClass_own (key : Nat → Nat) (reg : Nat → Option Nat) (c : Nat) :
+    (makeClass key key reg c).1 = c := by
+  simp [makeClass, upd]
+
+theorem runMakes_own (key : Nat → Nat) (reg : Nat → Option Nat) (cs : List Nat) :
+    runMakes key key reg cs = cs := by
+  induction cs generalizing reg with
+  | nil => rfl
+  | cons c cs ih => simp only [runMakes, makeClass_own, ih]
+
 end PwVerif.Preview
